@@ -19,6 +19,7 @@ package keeper
 
 //@ func (k Keeper).ClaimDeposit(ctx, depositId, reportIndex, msgSender) (err)
 //@ requires [claimer_and_recipient_are_not_the_bridge_account] acc(msgSender) != module("bridge")
+//@ requires [stored_aggregate_timestamps_fit_int64] forall q bytes :: forall t int :: has(oracle.Aggregates, pair(q, t)) ==> t < 9223372036854775808
 //@ modifies bridge.DepositIdClaimedMap, bank.bal, bank.supply
 //@ ensures [a_deposit_is_claimed_at_most_once] old(has(bridge.DepositIdClaimedMap, depositId)) && old(bridge.DepositIdClaimedMap[depositId].Claimed) ==> err != nil && nothing_written()
 //@ ensures [claimed_deposit_is_marked] err == nil ==> has(bridge.DepositIdClaimedMap, depositId) && bridge.DepositIdClaimedMap[depositId].Claimed
@@ -40,6 +41,8 @@ package keeper
 //@ requires [positive_amount] amount.Amount > 0
 //@ requires [bonded_total_fits_uint64] staking.bonded < 18446744073709551616
 //@ requires [withdrawal_id_below_max] has(bridge.WithdrawalId) ==> bridge.WithdrawalId.Id < 18446744073709551615
+//@ requires [block_time_not_before_1970] unixms(blocktime(ctx)) >= 0
+//@ requires [aggregate_sequence_numbers_below_2_64] forall q bytes :: get0(oracle.Nonces, q) < 18446744073709551615
 //@ modifies bank.bal, bank.supply, bridge.WithdrawalId, oracle.Nonces, oracle.Aggregates
 //@ ensures [burns_exactly_the_requested_amount] err == nil ==> bank.supply == old(bank.supply) - amount.Amount
 //@ ensures [sender_pays_exactly_the_amount] err == nil ==> bank.bal[acc(sender)] == old(bank.bal[acc(sender)]) - amount.Amount
@@ -53,6 +56,8 @@ package keeper
 //@ requires [signer_is_not_the_bridge_account] addrstr(msg.Creator) != module("bridge")
 //@ requires [bonded_total_fits_uint64] staking.bonded < 18446744073709551616
 //@ requires [withdrawal_id_below_max] has(bridge.WithdrawalId) ==> bridge.WithdrawalId.Id < 18446744073709551615
+//@ requires [block_time_not_before_1970] unixms(blocktime(goCtx)) >= 0
+//@ requires [aggregate_sequence_numbers_below_2_64] forall q bytes :: get0(oracle.Nonces, q) < 18446744073709551615
 //@ modifies bank.bal, bank.supply, bridge.WithdrawalId, oracle.Nonces, oracle.Aggregates
 //@ ensures [only_the_signer_pays] forall a addr :: a != addrstr(msg.Creator) && a != module("bridge") ==> bank.bal[a] == old(bank.bal[a])
 //@ ensures [signer_pays_exactly_the_amount] err == nil ==> bank.bal[addrstr(msg.Creator)] == old(bank.bal[addrstr(msg.Creator)]) - msg.Amount.Amount && bank.supply == old(bank.supply) - msg.Amount.Amount
